@@ -412,6 +412,16 @@ impl<'a> Ui<'a> {
                 soft("C06", "accessor", format!("{what}: matched_items({a}..{b}) / ({a}..={}) / ({b}..) disagree with matches() (len {len})", b.wrapping_sub(1)));
             }
         }
+        // a reversed range inside the bounds is a caller bug the safe API has to answer with a
+        // panic (or nothing), never with memory it does not own
+        if len >= 2 {
+            let r = expected_panic(|| s.matched_items(len - 1..len / 2).len());
+            if let Ok(n) = r {
+                if n != 0 {
+                    soft("C06", "accessor", format!("{what}: matched_items({}..{}) (reversed) yields {n} items", len - 1, len / 2));
+                }
+            }
+        }
         if s.get_matched_item(len).is_some() {
             soft("C06", "accessor", format!("{what}: get_matched_item({len}) returned an item, there are only {len} matches"));
         }
